@@ -6,7 +6,7 @@ from common import *
 from mbox import U
 import c17
 
-NAMES = [None, "Kayo", "Doe, John", "é", "a  b", 'q"x', "back\\slash", " pad ", "", "9", "a\tb", "<x>", "a@b", "a\0b", "a\nb", "=?utf-8?b?QQ==?="]
+NAMES = [None, "end\\", "\\", 'q"', "a," + chr(0x422), "x\\y\\", "Kayo", "Doe, John", "é", "a  b", 'q"x', "back\\slash", " pad ", "", "9", "a\tb", "<x>", "a@b", "a\0b", "a\nb", "=?utf-8?b?QQ==?="]
 ADDRS = ["a@x.org", "b@y.org", "user.name+tag@sub.example.com", "é@example.com", "u@é.example", '"a b"@example.com', "x@[127.0.0.1]", "c@z.org", "-f@example.com"]
 KINDS = ["from", "to", "cc", "bcc", "reply_to", "sender"]
 
